@@ -1,4 +1,5 @@
 import AcraModel.Wire.LenEnc
+import AcraModel.Wire.PgRow
 /-! Driver ops for C12 (wire formats). -/
 namespace Driver.C12
 open AcraModel AcraModel.Wire
@@ -6,6 +7,64 @@ open AcraModel AcraModel.Wire
 def optBytes : Option Bytes → String
   | none => "null"
   | some b => hexOf b
+
+/-! ### shared token syntax
+* byte strings: hex, `-` = empty
+* lists: items joined by `,`; the empty list is `_`
+* rows: items are `n` (NULL) or a byte string
+* per-column transformation: `k` keep, `e` empty, `p:<hex>` prepend, `a:<hex>` append, `t:<n>` truncate to n bytes,
+  `r:<hex>` replace, `x` fail; columns beyond the list are kept -/
+
+def splitList (s : String) : List String := if s = "_" then [] else s.splitOn ","
+
+def parseNats (s : String) : Option (List Nat) := (splitList s).mapM (·.toNat?)
+
+def parseRow (s : String) : Option (List (Option Bytes)) :=
+  (splitList s).mapM fun t => if t = "n" then some none else (ofHex t).map some
+
+def showRow (r : List (Option Bytes)) : String :=
+  if r.isEmpty then "_" else ",".intercalate (r.map fun | none => "n" | some b => hexOf b)
+
+inductive Tr where
+  | keep | empty | fail
+  | prepend (b : Bytes) | append (b : Bytes) | trunc (n : Nat) | replace (b : Bytes)
+
+def parseTr (t : String) : Option Tr :=
+  match t.splitOn ":" with
+  | ["k"] => some .keep
+  | ["e"] => some .empty
+  | ["x"] => some .fail
+  | ["p", h] => (ofHex h).map .prepend
+  | ["a", h] => (ofHex h).map .append
+  | ["r", h] => (ofHex h).map .replace
+  | ["t", n] => n.toNat?.map .trunc
+  | _ => none
+
+def parseTrs (s : String) : Option (List Tr) := (splitList s).mapM parseTr
+
+def Tr.apply : Tr → Bytes → Out Bytes
+  | .keep, d => .ok d
+  | .empty, _ => .ok []
+  | .fail, _ => .err
+  | .prepend b, d => .ok (b ++ d)
+  | .append b, d => .ok (d ++ b)
+  | .trunc n, d => .ok (d.take n)
+  | .replace b, _ => .ok b
+
+def applyTrs (ts : List Tr) (i : Nat) (d : Bytes) : Out Bytes :=
+  match ts[i]? with
+  | some t => t.apply d
+  | none => .ok d
+
+def showPacket (p : Pg.Packet) (rest : Bytes) : String :=
+  s!"{p.typ.toNat} {hexOf p.lenBuf} {hexOf p.body} {rest.length} {hexOf (Pg.marshal p)}"
+
+def pgRead (mode : String) (s : Bytes) : Option (Out (Pg.Packet × Bytes)) :=
+  match mode with
+  | "general" => some (Pg.readClient true s)
+  | "startup" => some (Pg.readClient false s)
+  | "db" => some (Pg.readDb s)
+  | _ => none
 
 def handle (op : String) (args : List String) : Option String :=
   match op, args with
@@ -24,6 +83,39 @@ def handle (op : String) (args : List String) : Option String :=
   | "lenenc.putstr", [v] => do
       if v = "null" then pure (hexOf (LenEnc.putLengthEncodedString none))
       else do let b ← ofHex v; pure (hexOf (LenEnc.putLengthEncodedString (some b)))
+  -- PostgreSQL framing: read one packet from a stream, show its parts and its marshalled form
+  | "pg.read", [mode, s] => do
+      let s ← ofHex s
+      let r ← pgRead mode s
+      pure (r.render fun (p, rest) => showPacket p rest)
+  -- PostgreSQL DataRow: read a database packet, run the column loop with a transformation, marshal
+  | "pg.row", [fmts, trs, s] => do
+      let fmts ← parseNats fmts
+      let trs ← parseTrs trs
+      let s ← ofHex s
+      let r : Out Bytes := do
+        let (p, _) ← Pg.readDb s
+        let p' ← Pg.rewriteRow (applyTrs trs) fmts p
+        pure (Pg.marshal p')
+      pure (r.render hexOf)
+  | "pg.row.enc", [row] => do
+      let row ← parseRow row
+      pure (hexOf (Pg.encodeRow row))
+  | "pg.row.dec", [b] => do
+      let b ← ofHex b
+      pure (match Pg.decodeRow b with | some r => "some " ++ showRow r | none => "none")
+  | "pg.msg.dec", [b] => do
+      let b ← ofHex b
+      pure (match Pg.decodeMsg b with
+        | some (t, body, rest) => s!"some {t.toNat} {hexOf body} {rest.length}"
+        | none => "none")
+  | "pg.query.replace", [s, q] => do
+      let s ← ofHex s
+      let q ← ofHex q
+      let r : Out Bytes := do
+        let (p, _) ← Pg.readClient true s
+        pure (Pg.marshal (Pg.replaceSimpleQuery p q))
+      pure (r.render hexOf)
   | _, _ => none
 
 end Driver.C12
